@@ -276,7 +276,7 @@ def _time_grid(ctx):
 
 
 def stages(ctx):
-    out = [Stage("forms", "hyp", strategy=cases(), examples=ctx.n(40000, 400000))]
+    out = [Stage("forms", "hyp", strategy=cases(), examples=ctx.n(80000, 400000))]
     if not ctx.quick:
         out.append(Stage("weekday_grid", "enum", cases=_weekday_grid(ctx), exhaustive=True))
         out.append(Stage("time_grid", "enum", cases=_time_grid(ctx), exhaustive=True))
